@@ -24,7 +24,11 @@ OBLIGATIONS = [
 # nothing is lost or reported as 'end' while a link is still in flight
 def _shared():
     from obligations import C17 as _c17
-    return [o for o in _c17.OBLIGATIONS if o.name in ('C17.O4.frozen.lfq_enqueue_frozen', 'C17.O4.frozen.lfq_dequeue_frozen')]
+    _r = [o for o in _c17.OBLIGATIONS if o.name in ('C17.O4.frozen.lfq_enqueue_frozen', 'C17.O4.frozen.lfq_dequeue_frozen')]
+    # "dummies are reclaimed only after a grace period, for every flavor's call_rcu": what call_rcu promises is C03
+    from obligations import C03 as _c03
+    _r += [o for o in _c03.OBLIGATIONS if o.name in ('C03.O1.call_rcu_enqueue', 'C03.O2.thread_iteration')]
+    return _r
 META = {
     'level': 'proof', 'bounded_apart': True,
     'trusted_base': ['CBMC 6.11 (incl. its malloc/free model)', 'sequential meaning of the uatomic/cmm primitives', 'canonical pool layout'],
